@@ -48,6 +48,7 @@ func scenariosFor(prop string) []scn {
 		// a destination that is still opening (or fails to open) while records already flow to its siblings
 		both(flowParams{Sources: 1, Records: 1, Batch: 1, Dests: 2, AckMenu: onlyOK, GateDestOpen: true, Stop: ""}, 3, 4)
 		both(flowParams{Sources: 1, Records: 2, Batch: 1, Dests: 2, AckMenu: onlyOK, GateDestOpen: true, Stop: ""}, 2, 3)
+		both(flowParams{Sources: 1, Records: 1, Batch: 1, Dests: 1, AckMenu: okNack, GateDLQOpen: true, Stop: "force"}, 3, 4)
 		// parallel processor workers
 		both(flowParams{Sources: 1, Records: 3, Batch: 1, Dests: 1, AckMenu: onlyOK, Procs: []procParam{{ID: "pp", Workers: 2, Gate: true}}}, 2, 3)
 		both(flowParams{Sources: 1, Records: 3, Batch: 1, Dests: 2, AckMenu: onlyOK, Procs: []procParam{{ID: "pp", Workers: 3, Gate: true, Kinds: []string{"p", "f", "p"}}}}, 1, 3)
@@ -77,6 +78,9 @@ func scenariosFor(prop string) []scn {
 		both(flowParams{Sources: 2, Records: 2, Batch: 2, Dests: 1, AckMenu: onlyOK, Stop: "force", Restart: true}, 1, 2)
 		both(flowParams{Sources: 1, Records: 3, Batch: 1, Dests: 1, AckMenu: onlyOK, Stop: "force", Restart: true, Procs: []procParam{{ID: "pp", Gate: true}}}, 2, 3)
 		both(flowParams{Sources: 1, Records: 2, Batch: 1, Dests: 2, AckMenu: onlyOK, GateDestOpen: true, Stop: "force"}, 2, 3)
+		// the DLQ is still opening (unresponsive) while a record is already being rejected, then the force stop arrives
+		both(flowParams{Sources: 1, Records: 1, Batch: 1, Dests: 1, AckMenu: okNack, GateDLQOpen: true, Stop: "force"}, 3, 4)
+		both(flowParams{Sources: 1, Records: 2, Batch: 1, Dests: 2, AckMenu: okNack, GateDLQOpen: true, Stop: "force"}, 2, 3)
 	case "C06":
 		both(flowParams{Sources: 1, Records: 3, Batch: 1, Dests: 1, AckMenu: onlyOK, Stop: "stopwait"}, 2, 4)
 		both(flowParams{Sources: 1, Records: 2, Batch: 1, Dests: 2, AckMenu: onlyOK, Stop: "stopwait"}, 2, 3)
